@@ -89,7 +89,55 @@ def block_keys(ctx, rep, rule: str) -> None:
         rep.floor(rule, f"{ci.name} callers of _construct_composable_block_ids", n, 1)
 
 
+def metadata_extraction(ctx, rep, rule: str) -> None:
+    """compile_fsdp_parameter_metadata: every metadata field is taken from the flat-parameter table of the same name, in one
+    strict zip; start = FSDP's inclusive intra-param start (0 for an empty shard), end = inclusive end + 1 (exclusive; 0 if empty)."""
+    from types import SimpleNamespace
+
+    from ..guards import Interp, Unsupported
+
+    repo = ctx.repo
+    fi = repo.func("distributed_shampoo.utils.shampoo_fsdp_utils:compile_fsdp_parameter_metadata")
+    ctor = [c for c in A.calls(fi.node, nested=True) if isinstance(c.func, ast.Name) and c.func.id == "FSDPParameterMetadata"]
+    if len(ctor) != 1:
+        raise AnalysisError(f"{rule}: expected one FSDPParameterMetadata(...) construction, found {len(ctor)}")
+    c = ctor[0]
+    comp = next((n for n in ast.walk(fi.node) if isinstance(n, ast.DictComp) and any(x is c for x in ast.walk(n))), None)
+    ok = comp is not None and len(comp.generators) == 1
+    detail = "metadata built in one dict comprehension"
+    if ok:
+        g = comp.generators[0]
+        z = g.iter
+        strict = isinstance(z, ast.Call) and isinstance(z.func, ast.Name) and z.func.id == "zip" and isinstance(A.keyword(z, "strict"), ast.Constant) and A.keyword(z, "strict").value is True
+        tgt = [t.id for t in g.target.elts] if isinstance(g.target, ast.Tuple) else []
+        srcs = []
+        for a in (z.args if strict else []):
+            d = A.assignments_to(fi.node, a.id) if isinstance(a, ast.Name) else []
+            srcs.append(_norm(d[0]).split(".")[-1] if len(d) == 1 else _norm(a))
+        want_src = {"param": "_params", "fqn": "_fqns", "shape": "_shapes", "numel": "_numels"}
+        pairing = dict(zip(tgt, srcs))
+        table_ok = all(pairing.get(k) == v for k, v in want_src.items()) and any(v == "_shard_param_infos" for v in pairing.values()) and _norm(comp.key) == "param"
+        info = next((k for k, v in pairing.items() if v == "_shard_param_infos"), None)
+        fields_ok = all(_norm(A.keyword(c, k)) == k for k in ("fqn", "shape", "numel")) and _norm(A.keyword(c, "sharding_strategy")) == "sharding_strategy"
+        bad = []
+        if info:
+            for st, en in [(None, None), (0, 0), (0, 4), (3, 9), (5, 5)]:
+                env = {info: SimpleNamespace(intra_param_start_idx=st, intra_param_end_idx=en)}
+                try:
+                    gs, ge = Interp(env).ev(A.keyword(c, "start_idx")), Interp(env).ev(A.keyword(c, "end_idx"))
+                except Unsupported as u:
+                    raise AnalysisError(f"{rule}: start/end expressions outside the sub-language: {u}") from u
+                ws, we = (st or 0), (en + 1 if en is not None else 0)
+                if (gs, ge) != (ws, we):
+                    bad.append((st, en, gs, ge))
+        ok = strict and table_ok and fields_ok and info is not None and not bad
+        detail = f"strict zip: {strict}; each loop variable comes from the flat-parameter table of the same name {pairing}: {table_ok}; fields passed under their own names: {fields_ok}; start = inclusive start or 0, end = inclusive end + 1 (exclusive) or 0 for an empty shard" + (f" — disagreement for (start, end)={bad[0][:2]}: got {bad[0][2:]}" if bad else "")
+    rep.ob(rule, "fsdp-metadata-extraction", ok, fi.loc(c), detail, sample=True)
+
+
 def run(ctx, rep) -> None:
+    rep.rule("C07.5", "compile_fsdp_parameter_metadata pairs every field with its flat-parameter table and converts FSDP's inclusive end index to the exclusive one the recovery expects")
+    rep.attempt("metadata_extraction", metadata_extraction, ctx, rep, "C07.5")
     rep.rule("C07.1", "gradients are recovered with the same parameter's metadata and blocked with the stored merged dims / counts")
     rep.rule("C07.2", "FSDP and HSDP copies of recovery/blocking agree; recovery yields views with the documented guards")
     rep.rule("C07.3", "HSDP distribution: collective uniformity, buffer protocol, index spaces, re-masking, agreement with the DDP / HybridShard copies")
